@@ -117,6 +117,10 @@ def _run(mod, prop, tier, seed, replay, jobs, tmp, t0):
     confirmed_hang = set()
     for idx, r in enumerate(results):
         if r.status == 'timeout' and r.crumb is not None and r.spec.get('kind') != 'replay' and hasattr(mod, 'replay'):
+            if len(confirmed_hang) >= 2:
+                confirmed_hang.add(idx)          # two stalls were already confirmed on their own cases: further stalled shards are not re-run
+                notes.append('a further stalled shard was not re-run (two hangs already confirmed); its last case: %s' % json.dumps(r.crumb)[:200])
+                continue
             s = dict(r.spec)
             s.update({'kind': 'replay', 'cases': [r.crumb], 'case_limit_s': 60, 'confirm_hang': True})
             again = [core.run_shards(prop, [dict(s)], tmp, 150, 1)[0] for _ in range(2)]
@@ -139,6 +143,8 @@ def _run(mod, prop, tier, seed, replay, jobs, tmp, t0):
         elif r.status == 'crash' and r.crumb is None:
             inconclusive.append('shard %s crashed without a bread crumb: rc=%r %s' % (r.spec.get('kind'), r.rc, r.stderr[-1500:]))
     extra_cov = mod.summarize(agg, tier) or {}
+    if replay:
+        extra_cov.pop('_inconclusive', None)       # a replay runs one case: the liveness rules of a whole run do not apply
     if extra_cov.get('_inconclusive'):
         inconclusive.append(extra_cov.pop('_inconclusive'))
     if agg['evaluations'] == 0:
